@@ -19,10 +19,19 @@ KERNEL int K(k_conv1d_shape)(const size_t* si, const size_t* sw, size_t stride, 
   hyb_t<u8,32,3> x, w; if (!x.resize(si[0],si[1],si[2]) || !w.resize(sw[0],sw[1],sw[2])) return -1;
   return shape_of(view::conv1d(x, w, nm::None, stride, padding, dilation), oshape, odim);
 }
+// same without padding (padding = None): convnd's pad widths are a heap-backed list (conv_pad with a run-time dim), which costs > 5 GB
+KERNEL int K(k_conv1d_shape_nopad)(const size_t* si, const size_t* sw, size_t stride, size_t dilation, size_t* oshape, size_t* odim){
+  hyb_t<u8,32,3> x, w; if (!x.resize(si[0],si[1],si[2]) || !w.resize(sw[0],sw[1],sw[2])) return -1;
+  return shape_of(view::conv1d(x, w, nm::None, stride, nm::None, dilation), oshape, odim);
+}
 // input (N,Cin,H,W), weight (Cout,Cin,KH,KW); stride/padding/dilation run-time pairs
 KERNEL int K(k_conv2d_shape)(const size_t* si, const size_t* sw, const size_t* stride, const size_t* padding, const size_t* dilation, size_t* oshape, size_t* odim){
   hyb_t<u8,64,4> x; hyb_t<u8,36,4> w; if (!x.resize(si[0],si[1],si[2],si[3]) || !w.resize(sw[0],sw[1],sw[2],sw[3])) return -1;
   return shape_of(view::conv2d(x, w, nm::None, mk_arr<size_t,2>(stride), mk_arr<size_t,2>(padding), mk_arr<size_t,2>(dilation)), oshape, odim);
+}
+KERNEL int K(k_conv2d_shape_nopad)(const size_t* si, const size_t* sw, const size_t* stride, const size_t* dilation, size_t* oshape, size_t* odim){
+  hyb_t<u8,64,4> x; hyb_t<u8,36,4> w; if (!x.resize(si[0],si[1],si[2],si[3]) || !w.resize(sw[0],sw[1],sw[2],sw[3])) return -1;
+  return shape_of(view::conv2d(x, w, nm::None, mk_arr<size_t,2>(stride), nm::None, mk_arr<size_t,2>(dilation)), oshape, odim);
 }
 // sliding window over the last two axes of a 4-d shape (what convnd uses): result shape and source index of a window index
 KERNEL void K(k_sliding_window)(const size_t* shape, const size_t* win, const size_t* idx, size_t* oshape, size_t* src){
@@ -56,6 +65,45 @@ KERNEL int K(k_pad_index)(const size_t* shape, const size_t* padw, const size_t*
 KERNEL int K(k_conv1d_el)(const u8* din, const u8* dw, const size_t* idx, size_t* os, u8* o){
   u8 in[1][1][3]; u8 w[1][1][2];
   for (int i=0;i<3;i++) (&in[0][0][0])[i]=din[i]; for (int i=0;i<2;i++) (&w[0][0][0])[i]=dw[i];
+  auto mv = view::conv1d(in,w);
+  const auto& v = nm::unwrap(mv);
+  put(nm::shape(v), os);
+  *o = (u8)v(idx[0],idx[1],idx[2]);
+  return 1;
+}
+// stride 2: input (1,1,4), weight (1,1,2) -> (1,1,2)
+KERNEL int K(k_conv1d_el_s2)(const u8* din, const u8* dw, const size_t* idx, size_t* os, u8* o){
+  u8 in[1][1][4]; u8 w[1][1][2];
+  for (int i=0;i<4;i++) (&in[0][0][0])[i]=din[i]; for (int i=0;i<2;i++) (&w[0][0][0])[i]=dw[i];
+  auto mv = view::conv1d(in,w,nm::None,2);
+  const auto& v = nm::unwrap(mv);
+  put(nm::shape(v), os);
+  *o = (u8)v(idx[0],idx[1],idx[2]);
+  return 1;
+}
+// generic fixed-array probes: CONV_EL(name, input dims, weight dims, call)
+#define CONV1D_EL(NAME, C, L, O, CW, KK, ...) KERNEL int K(k_conv1d_el_##NAME)(const u8* din, const u8* dw, const u8* db, const size_t* idx, size_t* os, u8* o){ \
+  u8 in[1][C][L]; u8 w[O][CW][KK]; u8 b[O]; \
+  for (int i=0;i<C*L;i++) (&in[0][0][0])[i]=din[i]; for (int i=0;i<O*CW*KK;i++) (&w[0][0][0])[i]=dw[i]; for (int i=0;i<O;i++) b[i]=db[i]; \
+  auto mv = __VA_ARGS__; const auto& v = nm::unwrap(mv); put(nm::shape(v), os); *o = (u8)v(idx[0],idx[1],idx[2]); return 1; }
+CONV1D_EL(p1, 1, 2, 1, 1, 2, view::conv1d(in, w, nm::None, nm::None, 1))                       // padding 1: (1,1,2)*(1,1,2) -> (1,1,3)
+CONV1D_EL(d2, 1, 3, 1, 1, 2, view::conv1d(in, w, nm::None, nm::None, nm::None, 2))             // dilation 2: (1,1,3)*(1,1,2) -> (1,1,1)
+CONV1D_EL(bias, 1, 3, 1, 1, 2, view::conv1d(in, w, b))                                         // bias: (1,1,3)*(1,1,2)+b -> (1,1,2)
+CONV1D_EL(g2, 2, 2, 2, 1, 2, view::conv1d(in, w, nm::None, nm::None, nm::None, nm::None, 2))   // groups 2: (1,2,2)*(2,1,2) -> (1,2,1)
+// conv2d: input (1,1,2,2), weight (1,1,2,2) -> (1,1,1,1)
+KERNEL int K(k_conv2d_el)(const u8* din, const u8* dw, const size_t* idx, size_t* os, u8* o){
+  u8 in[1][1][2][2]; u8 w[1][1][2][2];
+  for (int i=0;i<4;i++) (&in[0][0][0][0])[i]=din[i]; for (int i=0;i<4;i++) (&w[0][0][0][0])[i]=dw[i];
+  auto mv = view::conv2d(in,w);
+  const auto& v = nm::unwrap(mv);
+  put(nm::shape(v), os);
+  *o = (u8)v(idx[0],idx[1],idx[2],idx[3]);
+  return 1;
+}
+// two input channels: input (1,2,2), weight (1,2,2) -> (1,1,1)
+KERNEL int K(k_conv1d_el_c2)(const u8* din, const u8* dw, const size_t* idx, size_t* os, u8* o){
+  u8 in[1][2][2]; u8 w[1][2][2];
+  for (int i=0;i<4;i++) (&in[0][0][0])[i]=din[i]; for (int i=0;i<4;i++) (&w[0][0][0])[i]=dw[i];
   auto mv = view::conv1d(in,w);
   const auto& v = nm::unwrap(mv);
   put(nm::shape(v), os);
